@@ -293,7 +293,7 @@ def run_case(binary, ops, cfg, focus, classes):
     """returns dict(kind ∈ ok|oracle|model|crash, detail, stats, refcounts)"""
     tr, rc, err = run_impl(binary, ops)
     if rc != 0:
-        return {"kind": "crash", "detail": "seqdrv exit %d: %s" % (rc, err[-800:]), "stats": {}, "refcounts": {}, "nlines": len(tr)}
+        return {"kind": "crash", "detail": "seqdrv exit %d: %s" % (rc, vlib.crash_excerpt(err)), "stats": {}, "refcounts": {}, "nlines": len(tr)}
     ref = reference_check(tr)
     rf = [f for f in ref.fail if f[0] in classes]
     diffs, stats, mrc = run_model(tr, cfg, focus)
